@@ -1,30 +1,34 @@
-from runner import CbmcUnit, Entry, SmtUnit, SmtEntry
-from props.C09 import OPAQUE
+from runner import SmtUnit, SmtEntry, PathUnit, PathEntry
 
 LEVEL = "model_checking"
 
 
 def units(tier):
     q = tier == "quick"
-    E = lambda n, d, uw=8, paths=False: Entry(n, unwind=uw, timeout=900 if q else 3000, desc=d, paths=paths)
-    lens = [0, 1, 2] if q else [0, 1, 2, 3, 4]
+    W = 600 if q else 3000
+    E = lambda n, d, b="": PathEntry(n, desc=d, wall=W, bounds=b)
+    lens = [0, 1, 2, 3, 4] if q else [0, 1, 2, 3, 4, 5, 6]
     ents = []
     for n in lens:
-        ents.append(E("vp_main_tokenize_%d" % n, "tokenize(str,':'): every string of length %d over {':','a','b'}: tokens = maximal non-delimiter runs incl. 1-character ones" % n))
-        ents.append(E("vp_main_split_%d" % n, "split(str,\",\"): every string of length %d over {',','a','b'}" % n, paths=True))
-    for ab in (["0_0", "0_2", "2_0", "1_2", "2_1", "2_2"] if q else ["0_0", "0_2", "2_0", "1_2", "2_1", "2_2", "3_2", "2_3", "3_3"]):
-        ents.append(E("vp_main_prefix_" + ab, "longestBeginningMatch / beginsWith for all strings of lengths %s over {a,b}" % ab))
+        ents.append(E("vp_main_tokenize_%d" % n, "tokenize(str,':'): every string of %d arbitrary non-NUL bytes: tokens = maximal non-delimiter runs in order, incl. 1-character ones, no empty ones" % n, "string length %d" % n))
+        ents.append(E("vp_main_split_%d" % n, "split(str,\",\"): every string of %d arbitrary non-NUL bytes: same law" % n, "string length %d" % n))
+    for ab in (["0_0", "0_2", "2_0", "1_2", "2_1", "2_2", "3_3"] if q else ["0_0", "0_2", "2_0", "1_2", "2_1", "2_2", "3_2", "2_3", "3_3"]):
+        ents.append(E("vp_main_prefix_" + ab, "longestBeginningMatch / beginsWith for all strings of lengths %s (arbitrary bytes)" % ab, "string lengths " + ab))
     ents.append(E("vp_main_case_2", "lowerCase/upperCase on every 2-byte string"))
-    for n in ([1, 2, 3] if q else [1, 2, 3, 4, 5]):
-        ents.append(E("vp_main_filename_%d" % n, "FileName over every string of length %d over {'/','.','a'}: normalisation, path()+base(), name/ext/dropExt from the last component only" % n, uw=10, paths=True))
-    ents.append(E("vp_main_filename_compose", "FileName addExt / operator+", uw=10, paths=True))
+    for n in ([1, 2, 3, 4] if q else [1, 2, 3, 4, 5, 6]):
+        ents.append(E("vp_main_filename_%d" % n, "FileName over every string of %d arbitrary non-NUL bytes: normalisation, path()+base(), name/ext/dropExt from the last component only" % n, "string length %d" % n))
+    ents.append(E("vp_main_filename_compose", "FileName addExt / operator+"))
     ents.append(E("vp_main_removeargs", "removeArgs on a raw argument vector, all (ac, where, howMany) with ac <= 5"))
-    strs = CbmcUnit("strings", "harness/C18_strings.cpp", ents, heap_max=64, opaque=OPAQUE, object_bits=9, mem_unwind=20,
-                    assumptions=["strings over 3-letter alphabets (delimiter, dot, separator, letters), lengths 0..%d" % max(lens), "libstdc++ std::string out-of-line members by model (vp/models/models_more.c)",
-                                 "split(input, char) (getline/stringstream), PseudoURL parsing, ArgumentList, canonical()/homeFolder() and printed decimal text are outside the claim"],
-                    stubs=["std::string model", "iostream: opaque"])
+    ents.append(E("vp_main_url", "PseudoURL: type (0-2 letters or none) + '://' + file (1-2 chars over f . /) + two name[=value] pairs (names x/y, values 0-1 chars): parses back into exactly those parts, last duplicate wins, unknown name throws"))
+    ents.append(E("vp_main_arglist", "ArgumentList + parseAndRemove with a parser consuming an arbitrary 0-2 arguments at each position, 0-4 arguments: exactly the unconsumed arguments remain, in order"))
+    strs = PathUnit("strings", "harness/C18_strings.cpp", ents, defines=["VP_PATH"], native_defines=["VP_NATIVE_BUILD"],
+                    assumptions=["string lengths as listed per entry (characters: arbitrary non-NUL bytes unless an alphabet is named)",
+                                 "libstdc++'s std::string / std::vector code is the real header code compiled into the harness TU (instantiated by -D_GLIBCXX_ASSERTIONS, which also turns its precondition checks into obligations)",
+                                 "split(input, char) (std::getline on a stringstream), canonical()/homeFolder() and printed decimal text are outside the claim", "allocation never fails"],
+                    stubs=["libc: memchr/memcmp/strlen/memcpy/tolower/toupper by definition (vp/llpath.py models)", "operator new/delete: fresh blocks with red zones; use after free / double free / out of bounds are obligations"])
     pretty = SmtUnit("pretty", "harness/C18_pretty.cpp", [
         SmtEntry("vp_main_pretty_double", mode="REAL", timeout_ms=60000, desc="prettyDouble for every |val| in [1e-15,1e21]: suffix is an SI prefix, 1 <= |mantissa| <= 1000, mantissa*scale = val"),
         SmtEntry("vp_main_pretty_number", mode="REAL", timeout_ms=60000, desc="prettyNumber for every count >= 1000: same law")],
+        native_defines=["VP_NATIVE_BUILD"],
         assumptions=["snprintf captured (format, mantissa, suffix) by harness callback; printed digits outside the claim", "exact reals for the threshold / division arithmetic (float constants exact)"])
     return [strs, pretty]
